@@ -431,6 +431,23 @@ pub fn run_case(case: &Case) -> CaseResult {
                     return CaseResult { violations, outcome: "fault_outside_decomposition", fired: st.fired };
                 }
             }
+            // the pivot product does not depend on the tolerance: a matrix that is
+            // reported ZeroDet without the test has a zero pivot product (or a zero
+            // determinant) and must be reported ZeroDet with the test as well, not
+            // swallowed by the stability verdict (natural runs only)
+            if faults.is_empty() && tol.is_some() && outcome == "unstable" {
+                if let (DecOutcome::Err(e), _) = decompose_dbg(mat, None, &[], false, *debug) {
+                    if e.contains("ZeroDet") {
+                        violations.push(V16 {
+                            class: "zero-pivot-product-not-reported-as-zerodet".into(),
+                            what: format!(
+                                "without the stability test this matrix yields ZeroDet; with matrix_stability_test=Some({:?}) it yields Unstable",
+                                tol.map(f64::from_bits)
+                            ),
+                        });
+                    }
+                }
+            }
             CaseResult { violations, outcome, fired: st.fired }
         }
         Case::DirectWide { mat, tol, fault } => {
